@@ -112,6 +112,10 @@ def judgeSecond60 (impl : Impl) (padded : Bool) (form : Form) (date : Date) (h m
     (neg : Bool) (oh om : Int) (ts : TS) : String × String :=
   let scale := form.scaleOf ts.name
   let off := offsetMin form neg oh om
+  -- open (audit 3): the property says nothing on `:60` in a scale without leap seconds (C10 is silent, C08 speaks of
+  -- the constructors), nor on 1971-12-31 (the first table entry is the initial 10 s offset: no second was inserted on
+  -- that day): there an error is accepted as well as the value the constructors give
+  let openCase := scale ≠ "UTC" || decide (ownMinute date h mi off / 1440 + 1 = dayNumber ⟨1972, 1, 1⟩)
   if leapLabelOwn iersLeapDates date h mi off then
     match impl with
     | .ok [r] =>
@@ -127,7 +131,7 @@ def judgeSecond60 (impl : Impl) (padded : Bool) (form : Form) (date : Date) (h m
                      ("count_of_23_59_59", sval r.dur == lastLabelNs date h mi off nd frac - refOffsetNs scale)], "-")
        | none => ("FAIL:decode", "-"))
     | .ok _ => ("FAIL:decode", "-")
-    | .other "err" => if padded then ("ok", "-") else ("FAIL:rejected_valid", "-")
+    | .other "err" => if padded || openCase then ("ok", "-") else ("FAIL:rejected_valid", "-")
     | .other w => ("FAIL:" ++ w, "-")
   else
     match impl with
@@ -270,7 +274,7 @@ def handle (op : String) (args : List String) (impl : Impl) : Option Ans :=
         | some (sg, mant, ex), .ok [r] =>
           (match parseEp? r with
            | some r => verdict [("scale", r.ts == ts), ("canonical", scanon r.dur),
-                                ("within_float_resolution", withinResolution pfx ts.name sg mant ex (sval r.dur) 3)]
+                                ("within_float_resolution", withinResolution pfx ts.name sg mant ex (sval r.dur) 2)]
            | none => "FAIL:decode")
         | none, _ => "FAIL:decode"
         | _, .ok _ => "FAIL:decode"
